@@ -623,7 +623,7 @@ Qed.
 
 (* restart: a fresh process whose host names a recoverable guid uses the local key, asks for nothing *)
 Theorem restart_uses_local_key : forall st f d g,
-  f_status f = StatusDoc d -> validate d = true -> disabled d = false ->
+  f_status f = StatusDoc d -> f_local_fail f = false -> validate d = true -> disabled d = false ->
   d_guid d = Some g -> rec st g ->
   ~ In EAcquire (effects_of st kk_init f) /\
   (forall k, ~ In (EStore k) (effects_of st kk_init f)) /\
@@ -631,7 +631,7 @@ Theorem restart_uses_local_key : forall st f d g,
   exists k, k_key (mem_after st kk_init f) = Some k /\ fetch (fst st) g = Some k /\
             key_guid k = g /\ In k (h_issued (snd st)).
 Proof.
-  intros st f d g Hs Hv Hd Hg [k [Hf [Hkg Hi]]].
+  intros st f d g Hs Hlf Hv Hd Hg [k [Hf [Hkg Hi]]].
   unfold effects_of, mem_after, poll. cbn [answers_of a_status]. rewrite Hs, Hv. cbn [negb].
   pose proof (install_key kk_init d) as Hk.
   destruct (install_rules kk_init d) as [s1 ch]. cbn [fst] in Hk.
@@ -639,7 +639,7 @@ Proof.
   { unfold need_key. unfold disabled in Hd. rewrite Hd, Hg. unfold cur_guid. rewrite Hk. reflexivity. }
   rewrite Hn.
   assert (Hks : key_step d (answers_of st f) = (KeySet k, [ELocalRead g; ESetKey k])).
-  { unfold key_step. cbn [answers_of a_local]. rewrite Hs, Hg, Hf. reflexivity. }
+  { unfold key_step. cbn [answers_of a_local]. rewrite Hlf, Hs, Hg, Hf. reflexivity. }
   rewrite Hks.
   destruct (finish_effects (set_key s1 (Some k)) d
               ((EStatus :: (if ch then [EDumpRules] else [])) ++ [ELocalRead g; ESetKey k])) as [suf [E HB]].
@@ -745,7 +745,7 @@ Proof.
   intros st mem f k Hw Hm Hk. unfold mem_after in Hk.
   destruct (poll_key_cases2 mem (answers_of st f) k Hk) as [H|[[d [g [H1 [H2 H3]]]]|[H1 H2]]].
   - apply present_run; [apply trace_guarded|]. apply Hm. exact H.
-  - cbn [answers_of a_status a_local] in H1, H3. rewrite H1, H2 in H3.
+  - cbn [answers_of a_status a_local] in H1, H3. destruct (f_local_fail f); [discriminate|]. rewrite H1, H2 in H3.
     apply present_run; [apply trace_guarded|].
     rewrite (files_ok_fetch_guid _ _ _ Hw H3), H3. discriminate.
   - apply in_split in H1. destruct H1 as [x [y E]].
@@ -787,12 +787,12 @@ Qed.
 
 (* C09's local-store contract holds in the closed system *)
 Theorem mem_backed_closed : forall ss f d,
-  f_status f = StatusDoc d ->
+  f_status f = StatusDoc d -> f_local_fail f = false ->
   let w := sys_run world0 ss in
   mem_backed (w_mem w) d (answers_of (w_st w) f).
 Proof.
-  intros ss f d Hs w g Hg Hc. destruct (sys_good ss) as [_ [_ G3]]. fold w in G3.
-  cbn [answers_of a_local]. rewrite Hs, Hg.
+  intros ss f d Hs Hlf w g Hg Hc. destruct (sys_good ss) as [_ [_ G3]]. fold w in G3.
+  cbn [answers_of a_local]. rewrite Hlf, Hs, Hg.
   unfold cur_guid in Hc. destruct (k_key (w_mem w)) as [k|] eqn:Ek; [|discriminate].
   injection Hc as Hkg. subst g. apply G3. reflexivity.
 Qed.
@@ -803,4 +803,4 @@ Definition nvk (g : N) : key :=
 Definition nv_doc (g : option bytes) : doc :=
   {| d_version := V10; d_state := Some MUST_SIG_WIRESERVER; d_enabled := None; d_guid := g; d_rules := None |}.
 Definition nv_faults (g : option bytes) (k : key) : faults :=
-  {| f_status := StatusDoc (nv_doc g); f_acquire := AcqOk k; f_store := StoreOk; f_attest := AttOk |}.
+  {| f_status := StatusDoc (nv_doc g); f_acquire := AcqOk k; f_store := StoreOk; f_attest := AttOk; f_local_fail := false |}.
